@@ -21,12 +21,25 @@ def arithmetic(rep, wd):
                            "rule": "last in {None} + boundary classes (0, 16384, 0xFFFF, 0x10000, 0x7FFFFFFF, 0x80000000, 0xFFFF0000, 0xFFFFBFFF, 2^32-1) +- offsets + random; every wire value 0..65535"}}
 
 
+def lemma(rep, wd):
+    """Apalache (SMT): the acceptance property of the very operator Mac!NextFcnt is defined by (FcntCore!Reconstruct),
+    with the REAL constants, for all 2^32 x 2^16 inputs at once - closes the gap left by MCFcnt's scaled constants."""
+    r = core.apalache_check("FcntApa.tla", "Inv", PID)
+    if not r["ok"]:
+        core.log(r["out"][-3000:])
+        raise core.ToolError("FcntApa.tla: Apalache did not prove the reconstruction lemma - the specification itself is wrong")
+    return {"symbolic_lemma": {"tool": "apalache-mc 0.58 (SMT)", "module": "FcntApa.tla", "invariant": "Inv = AcceptIffFresh /\\ ReconstructionSound /\\ ReconstructionComplete",
+                               "constants": "WireMod 65536, MaxGap 16384, 32-bit counters (the real ones)",
+                               "domain": "every last accepted counter (or none) x every candidate counter x every wire value, symbolically",
+                               "wall_s": round(r["wall"], 1)}}
+
+
 def run():
     t = core.tier() == "thorough"
     return macfam.run(PID, [f"hist={40 if t else 4}", f"steps={70 if t else 45}", "profile=fcnt"],
         "downlink accepted/rejected differently from 'authentic and fresh'",
         'seeded random histories (9 regions x nb/async/async+ClassC) dominated by downlinks of every class: fresh (gaps 1, 2..200, 16384), replayed, stale, far-future (gap > 16384), bit-flipped, foreign-key, other-address, random, oversize; Codec.tla decides authenticity, Mac!NextFcnt freshness; every delivery, counter advance, response and queued answer is compared',
-        macfam.COMMON_ASSUMPTIONS, mc=[("MCFcnt.tla", "MCFcnt.cfg", {"workers": 4})], extra=[arithmetic])
+        macfam.COMMON_ASSUMPTIONS, mc=[("MCFcnt.tla", "MCFcnt.cfg", {"workers": 4})], extra=[arithmetic, lemma])
 
 
 def replay(path):
